@@ -35,10 +35,18 @@ def drive(seq, zetas, seed, options=None):
     t = _mk(N, zetas, seed, options)
     z0 = float(t.zeta)
     out = []
-    for g in seq:
+    held, held_vals = None, None
+    drive.mutated = None
+    for k_, g in enumerate(seq):
         u, nxt = _peek(t)
         newz = float(t.zeta_list[0]) if t.zeta_list else nxt
-        r = t.hopper(np.array(g, dtype=np.float64))
+        # a caller whose rates do not change from one step to the next keeps ONE array and hands it over again: the hopper must
+        # leave its argument alone
+        if held is None or held_vals != list(g):
+            held, held_vals = np.array(g, dtype=np.float64), list(g)
+        r = t.hopper(held)
+        if drive.mutated is None and not np.array_equal(held, np.array(held_vals, dtype=np.float64)):
+            drive.mutated = (k_, held_vals[:4], [float(v) for v in held[:4]])
         if r:
             out.append((1, int(r[0]["target"]), float(r[0]["zeta"]), float(r[0]["prob"]), float(t.prob_cum),
                         float(t.zeta), u, newz))
@@ -68,6 +76,8 @@ def oracle_first_crossing(args):
             problems.append("the caller's own threshold list was changed: %r -> %r" % (zetas[:4], mine[:4]))
     else:
         z0, out = drive(seq, zetas, args["seed"])
+    if drive.mutated is not None:
+        problems.append("step %d: the hopper changed the rate vector it was given (%r -> %r)" % drive.mutated)
     if zetas and z0 != zetas[0]:
         problems.append("first threshold %r is not the head of the user list %r" % (z0, zetas[0]))
     zi = 1
@@ -274,10 +284,14 @@ ORACLES = {"poisson_equivalence": oracle_poisson_equivalence, "whole_run": rc.or
 def _gen_seq(rng, thorough):
     N = int(rng.integers(2, 9))
     K = int(rng.integers(5, 200 if thorough else 60))
-    regime = rng.choice(["tiny", "small", "mixed", "large", "zeros", "tiny-thr", "tiny-stretch"])
+    regime = rng.choice(["tiny", "small", "mixed", "large", "zeros", "tiny-thr", "tiny-stretch", "constant"])
     seq = []
+    const = rng.random(N) * 10 ** rng.uniform(-2.5, -0.5)
     for k in range(K):
-        if regime == "tiny-thr":
+        if regime == "constant":
+            # flat region: the same rate vector step after step (several attempts in a row from one unchanged vector)
+            g = np.array(const)
+        elif regime == "tiny-thr":
             # per-step totals far below 1e-12 AND thresholds of the same order (set below): hops still have to happen
             g = rng.random(N) * 10 ** rng.uniform(-17, -12.5)
         elif regime == "tiny-stretch":
